@@ -247,6 +247,16 @@ func effectsCmd(args []string) error {
 		for _, l := range letters {
 			st.Flags[string(l)]++
 		}
+		// sometimes the spokfile is a symbolic link to a file kept elsewhere (not together with --fmt, which would then rightly
+		// rewrite that file): an existing spokfile is an existing spokfile however it got there
+		if found && !strings.Contains(letters, "f") && r.Intn(6) == 0 {
+			shared := filepath.Join(home, "shared")
+			os.MkdirAll(shared, 0o755)
+			if os.Rename(filepath.Join(proj, "spokfile"), filepath.Join(shared, "spokfile")) == nil {
+				os.Symlink(filepath.Join(shared, "spokfile"), filepath.Join(proj, "spokfile"))
+				st.Kinds["spokfile-is-a-symlink"]++
+			}
+		}
 		hasClean := strings.Contains(src, "task clean(")
 		hasDefault := strings.Contains(src, "default(")
 		_, cwdSpokErr := os.Stat(filepath.Join(cwd, "spokfile"))
